@@ -224,6 +224,11 @@ Theorem C11_timeout_roundtrip : forall t : Z,
 Proof. exact timeout_roundtrip. Qed.
 Print Assumptions C11_timeout_roundtrip.
 
+(* and a client behind a relay (relay.go unmarshals the record and marshals its own copy) *)
+Theorem C11_timeout_via_relay : forall t : Z, ct_via_relay cfgtimeout_shape t = Some (t, (0 <? t)%Z).
+Proof. exact timeout_via_relay. Qed.
+Print Assumptions C11_timeout_via_relay.
+
 Theorem C11_timeout_honoured : forall t : Z,
   ct_server cfgtimeout_shape t = Some t /\ ct_client cfgtimeout_shape t = Some t /\
   ((t <= 0)%Z -> ct_armed cfgtimeout_shape t = Some false) /\ ((0 < t)%Z -> ct_armed cfgtimeout_shape t = Some true).
